@@ -55,6 +55,8 @@ type HistInput struct {
 	Calls      []HCall   `json:"calls"`
 	QueueLimit int       `json:"queue_limit,omitempty"`
 	Tracers    int       `json:"tracers,omitempty"` // extra recording tracers (C14)
+	Init       []int     `json:"init,omitempty"`    // initial ordered active set (VerifSetActive)
+	SchemaRef  string    `json:"-"`                 // Gallina name of a shared schema definition
 }
 
 // ------------------------------------------------------------ observation
@@ -210,6 +212,10 @@ func hkeyFinal(k HKey) bool { return k.K == "end" || k.K == "state" || k.K == "a
 func pick(names am.S, idxs []int) am.S {
 	ret := make(am.S, len(idxs))
 	for i, x := range idxs {
+		if x >= len(names) {
+			ret[i] = fmt.Sprintf("Undefined%d", x)
+			continue
+		}
 		ret[i] = names[x]
 	}
 	return ret
@@ -307,14 +313,26 @@ func runHistory(in *HistInput) (obs *HistObs) {
 		obs.Err = "verify: " + err.Error()
 		return obs
 	}
-	defer m.Dispose()
+	// Dispose sleeps 100 ms for schemas with a Start state: never wait for it,
+	// and skip it for handler-less machines (no goroutine to stop)
+	if len(in.Bindings) > 0 {
+		defer func() { go m.Dispose() }()
+	}
+	if len(in.Init) > 0 {
+		m.VerifSetActive(pick(names, in.Init))
+	}
 
 	// parsed schema + topology as the machine holds them
 	parsed := m.Schema()
 	idxOf := func(l am.S) []int {
 		ret := make([]int, 0, len(l))
 		for _, n := range l {
-			ret = append(ret, slices.Index(names, n))
+			i := slices.Index(names, n)
+			if i == -1 {
+				// an undefined reference, named after its index by pick()
+				fmt.Sscanf(n, "Undefined%d", &i)
+			}
+			ret = append(ret, i)
 		}
 		return ret
 	}
@@ -525,8 +543,12 @@ func coqHCase(in *HistInput, obs *HistObs) string {
 		sorted[i] = i
 	}
 	slices.SortFunc(sorted, func(a, b int) int { return strings.Compare(in.States[a].Name, in.States[b].Name) })
+	schemaTerm := joinMap(obs.Parsed, coqSdef, ";\n   ")
+	if in.SchemaRef != "" {
+		schemaTerm = in.SchemaRef
+	}
 	fmt.Fprintf(&b, "{| h_schema := %s;\n h_topo := %s; h_sorted := %s; h_health := %s; h_exc := %d%%nat; h_qlimit := %d%%N;\n",
-		joinMap(obs.Parsed, coqSdef, ";\n   "), coqNatList(obs.Topology), coqNatList(sorted), coqNatList(healthIdx(in)), exc, ql)
+		schemaTerm, coqNatList(obs.Topology), coqNatList(sorted), coqNatList(healthIdx(in)), exc, ql)
 	fmt.Fprintf(&b, " h_bindings := %s;\n", joinMap(in.Bindings, func(bd []HKey) string {
 		return joinMap(bd, coqHKey, "; ")
 	}, "; "))
@@ -534,7 +556,7 @@ func coqHCase(in *HistInput, obs *HistObs) string {
 		f := map[string]string{"": "FNone", "panic": "FPanic", "panicval": "FPanic", "stall": "FStall"}[a.Fault]
 		return fmt.Sprintf("{| ha_ret := %s; ha_calls := %s; ha_fault := %s |}", coqBool(a.Ret), coqCalls(a.Calls), f)
 	}, "; "))
-	fmt.Fprintf(&b, " h_calls := %s;\n", coqCalls(in.Calls))
+	fmt.Fprintf(&b, " h_calls := %s; h_init := %s;\n", coqCalls(in.Calls), coqNatList(in.Init))
 	// observed trace
 	fmt.Fprintf(&b, " h_obs := {| tr_calls := %s;\n", joinMap(obs.Calls, func(c HCallObs) string {
 		return fmt.Sprintf("{| co_result := %s; co_time := %s; co_active := %s; co_qtick := %d%%N; co_ntx := %d%%nat; co_err := %d%%N |}",
